@@ -443,9 +443,37 @@ class ParallelSpecFinder(Generic[ClassType1, ObjType1, ClassType2, ObjType2]):
             self._pi1.root_eq_label,
             self._pi2.root_eq_label,
             (set(), set()),
-        ):
+        ) and self._spec_maps_match(sp1, sp2, matching_info):
             return sp1, sp2
         return None
+
+    def _spec_maps_match(
+        self, sp1: SpecMap, sp2: SpecMap, matching_info: MatchingInfo
+    ) -> bool:
+        """
+        Check that the two spec maps are matched all the way down from the roots.
+
+        The search accepts a pair of labels that both already have a rule without
+        looking at their children again, so the children of such a pair can be
+        pairs of labels whose rules were never matched together.
+        """
+        stack = [(self._pi1.root_eq_label, self._pi2.root_eq_label)]
+        checked: Set[Tuple[int, int]] = set()
+        while stack:
+            id1, id2 = stack.pop()
+            if (id1, id2) in checked:
+                continue
+            checked.add((id1, id2))
+            if id1 not in sp1 or id2 not in sp2:
+                return False
+            children = (sp1[id1], sp2[id2])
+            if children not in matching_info.get((id1, id2), {}):
+                return False
+            child_order = matching_info[(id1, id2)][children]
+            stack.extend(
+                (children[0][i1], child2) for i1, child2 in zip(child_order, children[1])
+            )
+        return True
 
     @staticmethod
     def _search_matching_info_init(
@@ -659,7 +687,7 @@ class EqPathParallelSpecFinder(
             self._pi1.root_eq_label,
             self._pi2.root_eq_label,
             (set(), set()),
-        ):
+        ) and self._spec_maps_match(sp1, sp2, matching_info):
             return sp1, sp2
         return None
 
